@@ -1,5 +1,6 @@
 from __future__ import annotations
 
+import ast
 import os
 import platform
 import re
@@ -20,8 +21,11 @@ from inline_snapshot._external import DiscStorage
 from inline_snapshot._problems import report_problems
 
 from .._change import apply_all
+from .._code_repr import used_hasrepr
+from .._find_external import ensure_import
 from .._flags import Flags
 from .._global_state import snapshot_env
+from .._inline_snapshot import used_externals
 from .._rewrite_code import ChangeRecorder
 from .._types import Category
 from .._types import Snapshot
@@ -182,6 +186,22 @@ class Example:
                     ],
                     recorder,
                 )
+
+                # add the imports which are required by the new code, like pytest does
+                for test_file in recorder.files():
+                    tree = ast.parse(test_file.new_code())
+                    required_imports = []
+                    if used_externals(tree):
+                        required_imports.append("external")
+                    if used_hasrepr(tree):
+                        required_imports.append("HasRepr")
+                    if required_imports:
+                        ensure_import(
+                            test_file.filename,
+                            {"inline_snapshot": required_imports},
+                            recorder,
+                        )
+
                 recorder.fix_all()
 
                 report_output = StringIO()
